@@ -512,6 +512,17 @@ func (a *ScriptedAgent) Snapshot() (g string, human []string) {
 	return core.GList(items), human
 }
 
+// Blobs: the public blobs of the identities held now.
+func (a *ScriptedAgent) Blobs() [][]byte {
+	a.mu.Lock()
+	defer a.mu.Unlock()
+	var out [][]byte
+	for _, i := range a.Idents {
+		out = append(out, i.Pub.Marshal())
+	}
+	return out
+}
+
 // CheckUsable is the Go-side oracle "the certificate can sign": for every
 // certificate identity selected by pred, a signature made with the stored
 // private key through a certificate signer verifies under the certificate.
@@ -590,6 +601,7 @@ type MockSigner struct {
 	calls  int
 	serial uint64
 	// what each call actually returned, as Gallina [sout] terms
+	Issued   [][]byte
 	Outcomes []string
 	Humans   []string
 	Requests []*proto.SSHCertificateSigningRequest
@@ -620,6 +632,7 @@ func (m *MockSigner) issueWindow(pub ssh.PublicKey, req *proto.SSHCertificateSig
 	if err := c.SignCert(rand.Reader, m.pool.CA.Signer); err != nil {
 		panic(err)
 	}
+	m.Issued = append(m.Issued, c.Marshal())
 	return c
 }
 
@@ -783,6 +796,8 @@ type HandlerSpec struct {
 	// Regular: the raw configuration
 	Validity *uint64
 	KeyIDs   [][2]string
+	// KeyLabel: the "key_label" option of the handler configuration ("" = not configured)
+	KeyLabel string
 	// Scripted
 	NamePanics bool
 	Auth       int
@@ -994,6 +1009,10 @@ type RunResult struct {
 	SignerOut []string
 	Requests  []*proto.SSHCertificateSigningRequest
 	DirG      string // "None" or "(Some dir)": the directory written before this run
+	// for the Go-side generation oracle: the certificates the mock CA issued in this run and the public blobs of the
+	// agent's identities after it
+	Issued     [][]byte
+	StoreBlobs [][]byte
 }
 
 type Session struct {
@@ -1045,12 +1064,22 @@ func (s *Session) registeredParses(name string) bool {
 
 // HandlerConfigJSON is the gensign configuration text for one regular handler.
 func HandlerConfigJSON(dir string, validity *uint64, keyids [][2]string) string {
+	return HandlerConfigJSONLabel(dir, validity, keyids, "")
+}
+
+// HandlerConfigJSONLabel: with the key_label option when label is not empty.
+func HandlerConfigJSONLabel(dir string, validity *uint64, keyids [][2]string, label string) string {
 	var b strings.Builder
 	b.WriteString(`{"handlers":{"paranoids.regular":{"enable":true,"pub_key_dir":`)
 	d, _ := json.Marshal(dir)
 	b.Write(d)
 	if validity != nil {
 		fmt.Fprintf(&b, `,"cert_validity_sec":%d`, *validity)
+	}
+	if label != "" {
+		l, _ := json.Marshal(label)
+		b.WriteString(`,"key_label":`)
+		b.Write(l)
 	}
 	b.WriteString(`,"key_identifiers":{`)
 	for i, kv := range keyids {
@@ -1069,8 +1098,12 @@ func HandlerConfigJSON(dir string, validity *uint64, keyids [][2]string) string 
 
 // NewRegular builds the real regular handler from an in-memory configuration.
 func NewRegular(dir string, validity *uint64, keyids [][2]string, conn net.Conn) (gensign.Handler, error) {
+	return NewRegularLabel(dir, validity, keyids, "", conn)
+}
+
+func NewRegularLabel(dir string, validity *uint64, keyids [][2]string, label string, conn net.Conn) (gensign.Handler, error) {
 	var gc config.GensignConfig
-	if err := json.Unmarshal([]byte(HandlerConfigJSON(dir, validity, keyids)), &gc); err != nil {
+	if err := json.Unmarshal([]byte(HandlerConfigJSONLabel(dir, validity, keyids, label)), &gc); err != nil {
 		return nil, err
 	}
 	return regular.NewHandler(&gc, conn)
@@ -1160,7 +1193,7 @@ func sameRegularSpecs(a, b []HandlerSpec) bool {
 		if (a[i].Validity == nil) != (b[i].Validity == nil) || (a[i].Validity != nil && *a[i].Validity != *b[i].Validity) {
 			return false
 		}
-		if fmt.Sprint(a[i].KeyIDs) != fmt.Sprint(b[i].KeyIDs) {
+		if fmt.Sprint(a[i].KeyIDs) != fmt.Sprint(b[i].KeyIDs) || a[i].KeyLabel != b[i].KeyLabel {
 			return false
 		}
 	}
@@ -1235,7 +1268,7 @@ func Execute(pool *Pool, spec SessionSpec, rng *mrand.Rand) *Session {
 					live.handlers = append(live.handlers, nil)
 					continue
 				}
-				h, err := NewRegular(dir, hs.Validity, hs.KeyIDs, c1)
+				h, err := NewRegularLabel(dir, hs.Validity, hs.KeyIDs, hs.KeyLabel, c1)
 				if err != nil {
 					s.BuildErr = fmt.Errorf("NewHandler: %v", err)
 					return s
@@ -1309,6 +1342,8 @@ func Execute(pool *Pool, spec SessionSpec, rng *mrand.Rand) *Session {
 		res.Events = rec.Events
 		res.StoreG, res.Store = s.Agent.Snapshot()
 		res.ChalLens = append([]int{}, s.Agent.ChalLens[chalBefore:]...)
+		res.Issued = signer.Issued
+		res.StoreBlobs = s.Agent.Blobs()
 		res.SignerG = signer.GSignerScript()
 		res.SignerOut = signer.Humans
 		res.Requests = signer.Requests
@@ -1454,7 +1489,7 @@ func (s *Session) Human() interface{} {
 				if h.Validity != nil {
 					v = fmt.Sprint(*h.Validity)
 				}
-				hs = append(hs, fmt.Sprintf("regular(validity=%s key_identifiers=%q)", v, h.KeyIDs))
+				hs = append(hs, fmt.Sprintf("regular(validity=%s key_identifiers=%q key_label=%q)", v, h.KeyIDs, h.KeyLabel))
 			} else {
 				hs = append(hs, fmt.Sprintf("scripted(namePanics=%v auth=%d gen=%d/%s keys=%+v)", h.NamePanics, h.Auth, h.Gen, kindNames[h.GenKind], h.Keys))
 			}
